@@ -914,13 +914,32 @@ def check_C15(run):
                 for ans in ((True, False) if dep == 'p' else (False,)):
                     configs.append((state, dep, ans, 'dest'))
         configs += [('absent', 'k', False, 'both'), ('other', 'p', True, 'both'), ('same', 'e', False, 'src'), ('other', 'e', False, 'src')]
+        # versions that are *nearly* the boss's own (the property says "exactly"): extensions, truncations, case, padding
+        V = sb.real_version()
+        near = [V + '+profiling', V + '0', V + '.1', V[:-1], V.split('+')[0] if '+' in V else V + '+debug', V.upper() if V.upper() != V else V.lower(),
+                ' ' + V, V + ' ', 'v' + V, V.replace('.', ',', 1), '', V + V, V[1:], V[:-1] + chr(ord(V[-1]) ^ 1)]
+        near = [v for v in dict.fromkeys(near) if v != V]
         if thorough:
-            configs = configs * 5
-        mlines = [f'setup {dep} {state} same {int(ans)} 1' for state, dep, ans, where in configs]
+            for _ in range(40):
+                i = rng.randrange(len(V) + 1); c = rng.choice('0123456789.+abcdefg ')
+                v = rng.choice([V[:i] + c + V[i:], V[:i] + V[i + 1:], V[:i] + c + V[i + 1:], V[:i]])
+                if v != V and v not in near: near.append(v)
+        for v in near:
+            configs.append((('other', v), 'e', False, 'dest'))
+        configs.append((('other', near[0]), 'p', False, 'dest')); configs.append((('other', near[1]), 'k', False, 'src'))
+        if thorough:
+            configs = configs * 3
+        mlines = [f'setup {dep} {state if isinstance(state, str) else state[0]} same {int(ans)} 1' for state, dep, ans, where in configs]
         model = C.run_model(mlines)
         depword = {'p': 'prompt', 'e': 'error', 'k': 'ok', 'f': 'force'}
         for (state, dep, ans, where), m_ans in zip(configs, model):
-            sb.place_remote(state); open(sb.log, 'w').close()
+            announced = None
+            if isinstance(state, tuple):
+                state, announced = state
+                sb.place_remote(state, version=announced)
+            else:
+                sb.place_remote(state)
+            open(sb.log, 'w').close()
             shutil.rmtree(sb.dir + '/dst', ignore_errors=True)
             so = sb.dir + '/stdin-of-other-version.txt'
             if os.path.exists(so): os.unlink(so)
@@ -934,9 +953,9 @@ def check_C15(run):
             synced = os.path.exists(sb.dir + '/dst/sub/g')
             other_stdin = open(so).read() if os.path.exists(so) else ''
             m = dict(x.split('=') for x in m_ans.split())
-            run.case(('launch', state, dep, ans, where), True, sample=dict(layer='L4', remote_state=state, deploy=depword[dep], answer_deploy=ans, remote_side=where,
+            run.case(('launch', state, announced, dep, ans, where), True, sample=dict(layer='L4', remote_state=state, announced_version=announced, boss_version=V, deploy=depword[dep], answer_deploy=ans, remote_side=where,
                                                                            rc=r['rc'], launches=launches, uploads=uploads, model=m_ans))
-            run.count(f'launch:{state}:{depword[dep]}'); run.cov['traces_validated_against_impl'] += 1
+            run.count(f'launch:{state}{"-near-version" if announced is not None else ""}:{depword[dep]}'); run.cov['traces_validated_against_impl'] += 1
             # oracle (property, independent of the model)
             why = None
             if uploads and not (dep in ('k', 'f') or (dep == 'p' and ans)):
@@ -950,15 +969,15 @@ def check_C15(run):
             elif r['timeout'] or r['rc'] not in (0, 10, 11):
                 why = f'unexpected exit {r["rc"]}'
             if why:
-                run.violation(dict(kind='oracle-failed-on-implementation', oracle=why, layer='L4', remote_state=state, deploy=depword[dep], answer_deploy=ans,
-                                   remote_side=where, rc=r['rc'], fake_log=log, stderr=r['err'][-1500:]))
+                run.violation(dict(kind='oracle-failed-on-implementation', oracle=why, layer='L4', remote_state=state, announced_version=announced, boss_version=V, deploy=depword[dep], answer_deploy=ans,
+                                   remote_side=where, rc=r['rc'], stdin_of_that_doer=other_stdin[:80], fake_log=log, stderr=r['err'][-1500:]))
                 continue
             # correspondence (one remote side: exact; both sides remote: the second setup finds the first's deployment)
             if where != 'both':
                 got = f"launches={launches} uploads={int(uploads)} ok={int(r['rc'] == 0)}"
                 want = f"launches={m['launches']} uploads={m['uploads']} ok={m['ok']}"
                 if got != want:
-                    run.violation(dict(kind='correspondence-broken', correspondence='L4/setup_comms', remote_state=state, deploy=depword[dep], answer_deploy=ans,
+                    run.violation(dict(kind='correspondence-broken', correspondence='L4/setup_comms', remote_state=state, announced_version=announced, deploy=depword[dep], answer_deploy=ans,
                                        impl=got, model=want, fake_log=log), no_input=True)
         run.cov['disagreements_checked'] += len(configs)
     finally:
@@ -1841,6 +1860,32 @@ def check_C18(run):
                 if len(fails) >= 3:
                     break
             subprocess.run(['chmod', '-R', 'u+rwx', base], capture_output=True); shutil.rmtree(base, ignore_errors=True)
+        # every string-valued input position x a fixed list of hostile strings (empty, multi-byte first character, lone sign, huge, regex bombs)
+        import json as _json
+        HOSTILE = ['', '\u00e9.*', '\uff0bx', '\u2013x', '+\u00e9', '-', '+', '\u65e5\u672c', '\u00a0', '+' + 'a' * 5000, '+(', '-[', '+\\', '+*', '+(?P<n>', '+\\p{Greek}', '+.{99999}',
+                   '+(a{1000}){1000}', '\U0001f600', '-\u00e9', ' +x', '+\n', ':', '@:', 'h:', '\\\\?\\C:']
+        base = os.path.join(sb.dir, 'hostile'); src, dst = base + '/src', base + '/dst'
+        l3.make_tree(src, [('', 'D'), ('f', 'F', b'x', 10**18), ('\u00e9', 'F', b'y', 10**18)])
+        for hs in HOSTILE:
+            sp = os.path.join(base, 'spec.yaml')
+            open(sp, 'w').write(f'syncs:\n  - src: {src}/\n    dest: {dst}/\n    filters: [ {_json.dumps(hs)} ]\n')
+            sp2 = os.path.join(base, 'spec2.yaml')
+            open(sp2, 'w').write(f'syncs:\n  - src: {_json.dumps(hs)}\n    dest: {dst}/\n')
+            for pos, args in (('filter', [src + '/', dst + '/', '--filter', hs]), ('filter2', [src + '/', dst + '/', '--filter', '+.*', '--filter', hs, '--dry-run']),
+                              ('spec-filter', ['--spec', sp]), ('spec-src', ['--spec', sp2]), ('src', [hs, dst + '/']), ('dest', [src + '/', hs, '--dry-run']),
+                              ('port', [src + '/', dst + '/', '--remote-port', hs]), ('behaviour', [src + '/', dst + '/', '--dest-file-newer', hs]), ('spec-path', ['--spec', hs])):
+                if any('\0' in a for a in args): continue
+                r = l4.run_cli(args, env=sb.env({'RJRSSYNC_TEST_PROMPT_RESPONSE': ''}), timeout=60, cwd=base)
+                run.case(('hostile', pos, hs), True, sample=dict(layer='L4', position=pos, string=hs[:40], rc=r['rc']) if hs in ('', '\u00e9.*') else None)
+                run.count(f'hostile:{pos}:rc={r["rc"]}')
+                why = None
+                if r['timeout']: why = 'time-out'
+                elif r['rc'] not in (0, 2, 10, 11, 12, 18, 19): why = f'exit status {r["rc"]}' + (' (signal)' if r['rc'] is not None and r['rc'] < 0 else '')
+                elif 'panicked at' in r['err']: why = 'panic message'
+                elif r['rc'] != 0 and not (r['err'].strip() or r['out'].strip()): why = 'failure without a message'
+                if why and len(fails) < 3:
+                    fails.append(dict(layer='L4', why=why, position=pos, string=hs, args=args, rc=r['rc'], stderr=r['err'][-800:], tree='src/{f,\u00e9}'))
+                shutil.rmtree(dst, ignore_errors=True)
         # the recorded witness: a file dated before 1970
         base = os.path.join(sb.dir, 'pre1970'); src, dst = base + '/src', base + '/dst'
         l3.make_tree(src, [('', 'D'), ('old-file', 'F', b'x', -10**18)])
@@ -1965,10 +2010,10 @@ def check_C17(run):
                         if par is not None and pos[par] > pos[p]:
                             why = f'{p!r} is listed before its folder {par!r}'; break
                 if why:
-                    run.violation(dict(kind='oracle-failed-on-implementation', oracle=why, layer='L3', threads=threads, filters=f,
+                    run.violation(dict(kind='oracle-failed-on-implementation', oracle=why, layer='L3', threads=threads, jitter_seed=env['RJRSSYNC_VERIF_JITTER'], filters=f,
                                        tree=[list(map(str, e[:2])) for e in ents][:80], impl=ans[:1500]))
                     break
-            if run.violations:
+            if any(not v[1] for v in run.violations):
                 break
         # read error: an unreadable folder as an unprivileged user
         root = os.path.join(d, 'unreadable'); l3.make_tree(root, [('', 'D'), ('ok', 'F', b'', 10**18), ('locked', 'D'), ('locked/inner', 'F', b'', 10**18), ('zz', 'D'), ('zz/f', 'F', b'', 10**18)])
